@@ -26,7 +26,7 @@ func init() {
 		Impl:       impl,
 		Check:      check,
 		NonTrivial: nonTrivial,
-		Rule: "one trie (1–6 patterns over {a,b,c,é,你,😀} sharing prefixes/suffixes/infixes, or 12–40 short patterns, or byte garbage) + 3–8 queries (match/findall/prefix/fuzzy), in about 1 case of 3 (1 of 2 for the many-pattern streams) preceded by a structural `dump` of all nodes (path, size, isEnd, fail target); " +
+		Rule: "one trie (1–6 patterns over {a,b,c,é,你,😀} sharing prefixes/suffixes/infixes, or 12–40 short patterns, or byte garbage) + 3–8 queries (match/findall/prefix/fuzzy), in about 1 case of 3 (1 of 2 for the many-pattern streams) preceded by a structural `dump` of all nodes (path, size, isEnd, fail target); 9 % histories (Insert…, Build, queries, then 1–3 rounds of insert… / build / dump / queries on the same trie, later patterns inside earlier ones) and 4 ‰ large cases (a node with up to 300 children, patterns/keys up to 260 runes, texts up to 1030 runes, up to 130 patterns; larger in thorough and on anchor drift); " +
 			"non-trivial = at least one findall whose text holds ≥2 occurrences that overlap or nest (naive scan), or a prefix query returning ≥2 results; distinct by hash of the case lines",
 		Classify: classify,
 		Facts:    facts,
@@ -42,7 +42,7 @@ func init() {
 		Assumptions: []string{
 			"Go int treated as unbounded (no text or pattern near 2^31 bytes; trieFrame.depth int32 does not wrap)",
 			"fewer than 2^32 trie nodes (uint32 head/tail/cap of trieNodeQueue do not wrap)",
-			"every query is made after BuildFailureLinks (a trie queried before it has nil failure links and is outside the property)",
+			"every checked query is made after a BuildFailureLinks that covers all inserted patterns (queries between an Insert and the next build meet nil failure links and are outside the property: they are run and compared with the model, not judged)",
 		},
 		TrustedBase: []string{
 			"property oracle: naive byte scanning with bytes.Equal / bytes.HasPrefix / bytes.Contains and unicode/utf8.DecodeRune (Go standard library)",
@@ -78,6 +78,9 @@ func RunTrie(t *algz.Trie, hdr []string) string {
 }
 
 func stepOp(t *algz.Trie, tk []string) string {
+	if o, ok := StepMut(t, tk); ok {
+		return o
+	}
 	if len(tk) == 1 && tk[0] == "dump" {
 		if !DumpAvailable() {
 			return "dump-unavailable"
@@ -117,6 +120,12 @@ func impl(c core.Case) []string {
 			return o
 		},
 		func(tk []string) string {
+			if o, ok := StepMut(&t, tk); ok {
+				if len(tk) == 1 && o == "ok" {
+					cyc = FailCycle(&t) // after every build
+				}
+				return o
+			}
 			if cyc != "" && !(len(tk) == 1 && tk[0] == "dump") {
 				// a query reaching that node would never return (and exhaust the memory)
 				return CycleWord + cyc
@@ -247,11 +256,11 @@ func checkOp(ps *PatSet, op string, arg []byte, out string) (string, string) {
 }
 
 func check(c core.Case, out []string) *core.Failure {
-	all, ok := HeaderPatterns(c.Lines[0])
+	phases, ok := Phases(c)
 	if !ok {
 		return &core.Failure{Key: "bad-output", Desc: "bad header"}
 	}
-	ps := NewPatSet(all)
+	all, ps := phases[0].All, phases[0].PS
 	if out[0] != "ok" {
 		key := "panic"
 		if out[0] != "panic" {
@@ -269,6 +278,21 @@ func check(c core.Case, out []string) *core.Failure {
 			return &core.Failure{Key: "fail-cycle", Desc: fmt.Sprintf("after BuildFailureLinks of %s the fail chain of node %q never reaches the root (cycle): every query reaching that node does not terminate; op %d %q was not run", showBs(all), strings.TrimPrefix(out[i], CycleWord), i, c.Lines[i])}
 		}
 		tk := core.Toks(c.Lines[i])
+		ph := phases[i]
+		if ph.Mut {
+			if out[i] != "ok" {
+				key := "panic"
+				if out[i] != "panic" {
+					key = "bad-output"
+				}
+				return &core.Failure{Key: key, Desc: fmt.Sprintf("op %d %q (round %d, patterns so far %s) answered %q", i, c.Lines[i], ph.Round, showBs(ph.All), out[i])}
+			}
+			continue
+		}
+		if ph.Dirty {
+			continue // patterns inserted since the last build: outside the property
+		}
+		all, ps = ph.All, ph.PS
 		if len(tk) == 1 && tk[0] == "dump" {
 			if key, desc := checkDump(all, out[i]); key != "" {
 				return &core.Failure{Key: key, Desc: fmt.Sprintf("op %d %q: %s", i, c.Lines[i], desc)}
@@ -301,11 +325,16 @@ func nonTrivial(c core.Case, out []string) bool {
 		return false
 	}
 	ps := NewPatSet(all)
+	phases, ok := Phases(c)
+	if !ok {
+		return false
+	}
 	for i := 1; i < len(c.Lines); i++ {
 		tk := core.Toks(c.Lines[i])
-		if len(tk) != 2 {
+		if len(tk) != 2 || phases[i].Mut || phases[i].Dirty {
 			continue
 		}
+		ps = phases[i].PS
 		arg, _ := Unhex(tk[1])
 		switch tk[0] {
 		case "findall":
@@ -387,8 +416,32 @@ func classify(c core.Case, out []string) []string {
 	if !DumpAvailable() {
 		ls = append(ls, "dump:unavailable")
 	}
+	phases, ok := Phases(c)
+	if !ok {
+		return ls
+	}
+	if last := phases[len(phases)-1]; last.Round > 0 {
+		ls = append(ls, fmt.Sprintf("history:builds=%d", last.Round+1))
+		if last.NewInsideOld {
+			ls = append(ls, "history:new-pattern-inside-old-node")
+		}
+	}
 	for i := 1; i < len(c.Lines); i++ {
 		tk := core.Toks(c.Lines[i])
+		if phases[i].Mut {
+			if out[i] == "panic" {
+				ls = append(ls, "panic")
+			}
+			continue
+		}
+		if phases[i].Dirty {
+			ls = append(ls, "history:query-before-rebuild")
+			continue
+		}
+		all, ps = phases[i].All, phases[i].PS
+		if phases[i].Round > 0 && out[i] != "dead" {
+			ls = append(ls, "history:op-after-rebuild")
+		}
 		if len(tk) == 1 && tk[0] == "dump" && out[i] != "dead" && out[i] != "panic" {
 			_, nodes, nonRoot := ExpectedDump(all)
 			switch {
